@@ -347,7 +347,7 @@ fn recover(tiered: bool, cfg: &BackendCfg, dir: &Path) -> anyhow::Result<Eng> {
 fn pick_cfg(rng: &mut ChaCha8Rng, ni: u64) -> BackendCfg {
     let ni = ni as usize;
     // small capacities: every overwrite leaves a tombstone, a full index compacts them away
-    let caps = [ni + 1, ni + 1, ni + 2, ni + 2, 6, 1000, ni];
+    let caps = [ni + 1, ni + 1, ni + 1, ni + 2, ni + 2, 6, 1000, ni];
     let snaps = [0usize, 1, 2, 3, 1000];
     let rots = [1u64, 200, 1 << 20];
     BackendCfg {
